@@ -126,7 +126,14 @@ inline std::string attribution_error(Model const& m, Issued const& is, int sink,
       return "named argument " + f[3] + " belongs to another statement";
     }
   }
-  else if (is.kind != 3 && is.kind != 4 && nargs != 0)
+  else if ((is.kind == 4) && is.site == 30)
+  {
+    if (nargs != 2 || f[3] != "mid=" + std::to_string(is.id) || f[4].rfind("mtext=", 0) != 0)
+    {
+      return "named arguments differ from the macro call site's (mid, mtext): got " + std::to_string(nargs) + " pairs";
+    }
+  }
+  else if (is.kind != 3 && nargs != 0)
   {
     return "statement without named arguments was delivered with " + std::to_string(nargs) + " key/value pairs (first: " + f[3].substr(0, 60) + ")";
   }
